@@ -1,3 +1,8 @@
 #!/bin/sh
-# compile one file of the project
-cd /work/c10/coq && timeout ${2:-900} coqc -Q . RV -w -notation-overridden,-deprecated-hint-without-locality,-deprecated-instance-without-locality "$1" 2>&1 | grep -v "^WARNING conda" | head -${3:-60}
+# compile one file of the project; prints EXIT <code> when coqc did not succeed (124 = timeout)
+cd /work/c10/coq
+timeout ${2:-900} coqc -Q . RV -w -notation-overridden,-deprecated-hint-without-locality,-deprecated-instance-without-locality "$1" > /tmp/cq.out 2>&1
+rc=$?
+grep -v "^WARNING conda" /tmp/cq.out | head -${3:-60}
+[ $rc -ne 0 ] && echo "EXIT $rc"
+exit 0
